@@ -870,6 +870,10 @@ class Unroll(ast.NodeTransformer):
             return Unroll._item_ok(e.value)
         if isinstance(e, (ast.Tuple, ast.List)):
             return all(Unroll._item_ok(x) for x in e.elts)
+        if isinstance(e, ast.Dict):
+            return all(k is not None and isinstance(k, ast.Constant)
+                       for k in e.keys) and all(
+                Unroll._item_ok(v) for v in e.values)
         if isinstance(e, ast.Call) and norm(e) == "type(None)":
             return True
         if isinstance(e, ast.UnaryOp) and isinstance(
@@ -2182,7 +2186,9 @@ def normalize_module(tree: ast.Module, extern=None) -> ast.Module:
     _inline_decorators(tree)
     _inline_contextmanagers(tree)
     from . import normalize2 as n2
-    n2.inline_value_objects(tree)
+    if n2.inline_value_objects(tree):
+        _restore_anchor_names(tree)
+    n2.redispatch_loops(tree)
     n2.comprehension_calls_to_loops(tree)
     n2.predicate_loops(tree)
     n2.inline_search_helpers(tree)
@@ -2249,10 +2255,18 @@ def normalize_module(tree: ast.Module, extern=None) -> ast.Module:
         tree = n2.Idioms3().visit(tree)
     for n in ast.walk(tree):
         if isinstance(n, ast.FunctionDef):
+            n2.bound_method_aliases(n)
+            n2.forward_flags(n)
             for _ in range(4):
                 if not n2.collapse_aliases(n):
                     break
             n2.merge_equal_definitions(n)
+            n2.forward_flags(n)
+            if n2.projected_records(n):
+                n2.merge_appends(n)
+                for _ in range(2):
+                    if not n2.collapse_aliases(n):
+                        break
     tree = AttrCalls().visit(tree)
     n2.sort_keywords(tree)
     ntypes = _namedtuples(tree)
